@@ -105,3 +105,58 @@ Example C08_example :
   let rows := [RF (mkFrag 0 (s "c1") 1 1000 1 []); RG (mkGap 200 (s "scaffold")); RF (mkFrag 1 (s "c2") 1 30 (-1) [])] in
   find_overlaps rows 1 1221 = Ok (Some (mkFound 1 1230 rows)) /\ error_length (198700, 10000) = 20.
 Proof. vm_compute. split; reflexivity. Qed.
+
+(* ---- "Painting every scaffold changes only names (prefix + rank by size)
+   and order, not content."  END TO END through [remap]: the same null maps
+   with every bait tagged Painted (Pretext scaffold names pairwise distinct
+   and not the names of input scaffolds absent from the map -- both shown
+   necessary by computed counterexamples in Proofs/NullMapPainted.v), in ANY
+   Pretext order: still one primary curated assembly and zero statistics; the
+   multiset of row lists is the input's; the scaffolds shown in the map are the
+   autosomes prefix1 .. prefixk, rank 1, numbered by non-increasing SEQUENCE
+   length (gaps not counted), ties in Pretext order, each the rows of the
+   scaffold it paints; absent scaffolds keep name and rows at rank 3. *)
+From Tola Require Proofs.NullMapPainted Proofs.Naming Py.Sort Py.Dec.
+Theorem C08_painted_null_map : forall g prefix n d input ptx,
+  0 <= n -> 0 < d -> input <> [] ->
+  NoDup (map fst input) -> Forall Proofs.NullMap.sc_ok input ->
+  NoDup (map key_of (flat_map (fun p => frags_of (snd p)) input)) ->
+  NoDup (map fst ptx) ->
+  Proofs.NullMapPainted.pnames_fresh input ptx ->
+  Proofs.NullMapPainted.painted_null_map_any n d input ptx ->
+  exists scs per,
+    remap repaired g prefix (n, d) input ptx = Ok (mkOut [mkOutAsm None true scs] 0 0 0 per)
+    /\ Forall (fun p => snd p = (0, 0)) per
+    /\ Permutation (map (fun sc => map Proofs.NullMap.erase_id (sc_rows sc)) scs)
+                   (map (fun p => map Proofs.NullMap.erase_id (snd p)) input)
+    /\ Forall (fun sc => sc_tag sc = None /\ sc_hap sc = None) scs
+    /\ exists pieces present absent,
+         Permutation scs (present ++ absent)
+         /\ Forall2 (Proofs.NullMapPainted.piece_for input) pieces ptx
+         /\ Forall2 Proofs.Naming.same_but_name
+                    (Py.Sort.sort_by_Z_desc Proofs.NullMapPainted.seq_len pieces) present
+         /\ map sc_name present
+            = map (fun i => prefix ++ Py.Dec.str_of_Z (Z.of_nat i)) (seq 1 (length present))
+         /\ length present = length ptx
+         /\ Forall (fun sc => sc_rank sc = 1) present
+         /\ Proofs.NullMapPainted.Sorted_desc (map Proofs.NullMapPainted.seq_len present)
+         /\ (forall z, map sc_orig (filter (fun sc => Proofs.NullMapPainted.seq_len sc =? z) present)
+                       = map sc_orig (filter (fun sc => Proofs.NullMapPainted.seq_len sc =? z) pieces))
+         /\ Forall (Proofs.NullMapPainted.absent_ok input ptx) absent.
+Proof. exact Proofs.NullMapPainted.painted_null_map_identity_any. Qed.
+Print Assumptions C08_painted_null_map.
+
+(* non-vacuity, and the tie rule on a concrete map: two 300 bp scaffolds shown
+   in reverse input order -- the one first in the MAP gets number 1 *)
+Theorem C08_painted_tie_break :
+  Proofs.NullMapPainted.painted_null_map_any 10 1 Proofs.NullMapPainted.tie_input Proofs.NullMapPainted.tie_ptx
+  /\ exists scs per,
+       remap repaired Proofs.NullMapPainted.pi_gap (s "SUPER_") (10, 1)
+             Proofs.NullMapPainted.tie_input Proofs.NullMapPainted.tie_ptx
+         = Ok (mkOut [mkOutAsm None true scs] 0 0 0 per)
+       /\ map Proofs.NullMapPainted.view_sc scs
+          = [ (s "SUPER_1", [Proofs.NullMap.cex_F "ctg5" 1 300 1], 1, Some (s "Scaffold_2"));
+              (s "SUPER_2", [Proofs.NullMap.cex_F "ctg3" 1 300 1], 1, Some (s "Scaffold_3"));
+              (s "SUPER_3", [Proofs.NullMap.cex_F "ctg1" 1 100 1], 1, Some (s "Scaffold_1")) ].
+Proof. exact Proofs.NullMapPainted.painted_tie_break_instance. Qed.
+Print Assumptions C08_painted_tie_break.
